@@ -6,6 +6,8 @@ def run(ctx):
     ctx.rules_run.append('S-RT.derive: derived decode interpreted over the abstract item stream of the derived encode: Ok, whole stream consumed, field<->field, nil defaults, skipped -> Default, Cow borrowed')
     ctx.rules_run.append('S-RT.indef: the same with the type\'s own container re-framed as indefinite-length')
     n = derive_rules.c09(ctx)
+    if ctx.tier == 'thorough':
+        n += derive_rules.on_random(ctx, derive_rules.c09)
     ctx.rules_run.append('S-ERR: streams with a wrong/missing tag, an undeclared variant index or a missing mandatory field are rejected on every path')
     n += derive_rules.c09_errors(ctx)
     return 'Derived decoders were run abstractly over the derived encoders\' item streams for every corpus schema, variant and presence vector: %d cases.' % n
